@@ -68,7 +68,11 @@ contract(f"{LB}::BaseLoss.compute_loss",
                  {"exc": "ValueError", "when": "self.coordinate_filters is not None and "
                                                 "len(self.coordinate_filters) != real_data.shape[1]"}],
          may_raise=["Exception"],   # user filters / single-coordinate losses may raise anything (C11)
-         ensures=[], modifies=[])
+         ensures=[],
+         # the value is NAMED as a function of (loss object, the two arrays handed in): a definitional update used by
+         # callers to say "the loss of exactly those series" (determinism: frame + no-state analyses of C08)
+         ghost_ensures=["result == closs(self, sim_data_ensemble, real_data)"],
+         modifies=[])
 
 _WSUM = "fsum(lambda j: l1d(self, filtered_data[j], real_data[:, j]) * weights[j], {n})"
 
